@@ -244,6 +244,30 @@ fn fs_entry_point(sc: &SinkSc, g: Gen, bin: &str, reference: &[u8], log: &mut Lo
         if sc.fs == 4 {
             let _ = std::fs::write(dir.join(&file), vec![b'x'; reference.len() + 70_000]);
         }
+        // half of the time under a binary name that differs from the command's own name (an installed alias):
+        // the reference is then what generate() writes under that same name
+        let alt = format!("alt-{bin}");
+        let (bin, reference_owned): (&str, Option<Vec<u8>>) = if sc.plan.cap.map(|c| c % 2 == 0).unwrap_or(sc.queries.len() % 2 == 0) {
+            let mut fresh = build_cmd(&sc.spec);
+            match generate_with(g, &mut fresh, &alt, &[], &FaultPlan::perfect()).0 {
+                GenOut::Ok(b) => (alt.as_str(), Some(b)),
+                _ => (bin, None),
+            }
+        } else {
+            (bin, None)
+        };
+        let reference: &[u8] = reference_owned.as_deref().unwrap_or(reference);
+        let file = match g {
+            Gen::Bash => format!("{bin}.bash"),
+            Gen::Zsh => format!("_{bin}"),
+            Gen::Fish => format!("{bin}.fish"),
+            Gen::PowerShell => format!("_{bin}.ps1"),
+            Gen::Elvish => format!("{bin}.elv"),
+            _ => format!("{bin}.nu"),
+        };
+        if sc.fs == 4 {
+            let _ = std::fs::write(dir.join(&file), vec![b'x'; reference.len() + 70_000]);
+        }
         let mut cmd = build_cmd(&sc.spec);
         let r = catch(|| match g {
             Gen::Bash => clap_complete::aot::generate_to(Shell::Bash, &mut cmd, bin, &dir),
